@@ -48,10 +48,13 @@ def props(p, st):
             continue
         v = p[k]
         if k == 'text':
-            o, c = st['delim'][0], st['delim'][1]
-            if st['delim'] != '{}' and (o in v):
-                o, c = '{', '}'
-            out.append(f'text={o}{v}{c}')
+            # the style's delimiter if the text does not contain it, else the first of {} "" '' that it does not contain
+            for d in (st['delim'], '{}', '""', "''"):
+                if d[0] not in v and d[1] not in v:
+                    break
+            else:
+                raise ValueError(f'text {v!r} cannot be written with any DS9 delimiter')
+            out.append(f'text={d[0]}{v}{d[1]}')
         elif k == 'tag':
             out.append(f'tag={{{v}}}')
         else:
